@@ -113,6 +113,7 @@ Ltac split_and H :=
          | (_ && _) = true => let H2 := fresh "C" in apply andb_true_iff in H; destruct H as [H H2]
          end.
 
+Ltac peel H X := apply andb_true_iff in H; destruct H as [H X].
 Ltac split_goal := repeat match goal with |- (_ && _) = true => apply andb_true_iff; split end.
 
 (* keep the generated constants folded *)
@@ -653,12 +654,13 @@ Proof.
   intros a H. unfold f32_finite in H. unfold f32_is_nan. apply negb_true_iff in H. rewrite H. reflexivity.
 Qed.
 
-Lemma alpha_doc : forall a, alpha_ok a = true -> f32_is_nan a = false ->
-  f32_in_Q doc_alpha_min doc_alpha_max a = true.
+Lemma alpha_doc : forall a, alpha_ok a = true -> f32_in_Q doc_alpha_min doc_alpha_max a = true.
 Proof.
-  intros a H N. pose proof schema_side_ok as SS. unfold schema_side in SS. split_side SS.
-  unfold alpha_ok, f32_ltb in H. apply andb_true_iff in H. destruct H as [A B].
-  rewrite N in A, B.
+  intros a H. pose proof schema_side_ok as SS. unfold schema_side in SS. split_side SS.
+  unfold alpha_ok, alpha_ok_gen in H.
+  replace enf_alpha_rejects_nan with true in H by (symmetry; assumption). cbn [negb orb] in H.
+  peel H B. peel H A. apply negb_true_iff in H. rename H into N.
+  unfold f32_ltb in A, B. rewrite N in A, B.
   rewrite (finite_not_nan enf_alpha_min_f32) in A by assumption.
   rewrite (finite_not_nan enf_alpha_max_f32) in B by assumption.
   cbn [negb andb] in A, B. apply negb_true_iff in A, B.
@@ -678,13 +680,12 @@ Proof.
   - apply Qle_bool_iff. exact Hi.
 Qed.
 
-Lemma bq_doc : forall b, validate_bq b = true -> bq_has_threshold b = false -> doc_bq b = 0%N.
+Lemma bq_doc : forall b, validate_bq b = true -> doc_bq b = 0%N.
 Proof.
-  intros b H T. pose proof schema_side_ok as SS. unfold schema_side in SS. split_side SS.
-  unfold validate_bq in H. rewrite T in H. cbn [orb] in H.
-  assert (R : in_range enf_bq_trigger_min enf_bq_trigger_max (bq_trigger b) = true /\ mem (bq_metric b) enf_bq_metrics = true).
-  { destruct enf_bq_trigger_only_without_threshold; apply andb_true_iff in H; exact H. }
-  destruct R as [R M]. unfold doc_bq. apply first_code_zero.
+  intros b H. pose proof schema_side_ok as SS. unfold schema_side in SS. split_side SS.
+  unfold validate_bq, validate_bq_gen in H.
+  match goal with [ X : negb enf_bq_trigger_only_without_threshold = true |- _ ] => apply negb_true_iff in X; rewrite X in H end.
+  peel H M. unfold doc_bq. apply first_code_zero.
   repeat constructor; cbn [fst]; use_sub.
 Qed.
 
@@ -698,102 +699,122 @@ Proof.
     apply Z.leb_le in A, B; apply Z.leb_le; eapply Z.le_trans; eassumption end.
 Qed.
 
-Lemma quant_doc : forall o, validate_oquant o = true -> nogap_quant o = true -> doc_quant o = 0%N.
+Lemma quant_doc : forall o, validate_oquant o = true -> doc_quant o = 0%N.
 Proof.
-  intros [q|] H G; [|reflexivity]. pose proof schema_side_ok as SS. unfold schema_side in SS. split_side SS.
+  intros [q|] H; [|reflexivity]. pose proof schema_side_ok as SS. unfold schema_side in SS. split_side SS.
   cbn [validate_oquant] in H. unfold validate_quantizer in H. apply andb_true_iff in H. destruct H as [M H].
-  cbn [nogap_quant] in G. cbn [doc_quant].
+  cbn [doc_quant].
   assert (Md : mem (qz_type q) doc_quantizer_types = true) by use_sub. rewrite Md. cbn [negb].
   destruct (qz_binary q) as [b|].
   - destruct (seq (qz_type q) "binary") eqn:Tb; [|reflexivity].
-    apply bq_doc; [exact H | apply negb_true_iff; exact G].
+    apply bq_doc. exact H.
   - destruct (qz_product q) as [p|]; [|reflexivity].
     destruct (seq (qz_type q) "product") eqn:Tp; [|reflexivity].
     apply seq_eq in Tp. rewrite Tp in H. cbn in H. apply pq_doc. exact H.
 Qed.
 
-Lemma flat_doc : forall p, validate_flat p = true -> nogap_quant (vp_quant p) = true -> doc_flat p = 0%N.
+Lemma flat_doc : forall p, validate_flat p = true -> doc_flat p = 0%N.
 Proof.
-  intros p H G. pose proof schema_side_ok as SS. unfold schema_side in SS. split_side SS.
+  intros p H. pose proof schema_side_ok as SS. unfold schema_side in SS. split_side SS.
   unfold validate_flat in H. split_and H. rewrite ?gate_true in * by assumption.
   unfold doc_flat. apply first_code_zero. repeat constructor; cbn [fst]; try use_sub.
   rewrite quant_doc by assumption. reflexivity.
 Qed.
 
-Lemma vamana_doc : forall p, validate_vamana p = true ->
-  f32_is_nan (vp_alpha p) = false -> nogap_quant (vp_quant p) = true -> doc_vamana p = 0%N.
+Lemma vamana_doc : forall p, validate_vamana p = true -> doc_vamana p = 0%N.
 Proof.
-  intros p H N G. pose proof schema_side_ok as SS. unfold schema_side in SS. split_side SS.
+  intros p H. pose proof schema_side_ok as SS. unfold schema_side in SS. split_side SS.
   unfold validate_vamana in H. split_and H. rewrite ?gate_true in * by assumption.
   unfold doc_vamana. apply first_code_zero. repeat constructor; cbn [fst]; try use_sub.
   - apply alpha_doc; assumption.
   - rewrite quant_doc by assumption. reflexivity.
 Qed.
 
-Lemma ivalue_doc : forall v, validate_ivalue v = true -> nogap_ivalue v = true -> doc_ivalue v = 0%N.
+Lemma ivalue_doc : forall v, validate_ivalue v = true -> doc_ivalue v = 0%N.
 Proof.
-  intros v H G. pose proof schema_side_ok as SS. unfold schema_side in SS. split_side SS.
+  intros v H. pose proof schema_side_ok as SS. unfold schema_side in SS. split_side SS.
   unfold validate_ivalue in H. apply andb_true_iff in H. destruct H as [M H].
-  unfold nogap_ivalue in G. apply andb_true_iff in G. destruct G as [Gf Gv].
   unfold doc_ivalue. assert (Md : mem (iv_type v) doc_index_types = true) by use_sub. rewrite Md. cbn [negb].
   destruct (seq (iv_type v) "vectorFlat").
   { rewrite ?gate_true in H by assumption. destruct (iv_flat v) as [p|]; [|reflexivity].
-    apply flat_doc; [exact H | exact Gf]. }
+    apply flat_doc; exact H. }
   destruct (seq (iv_type v) "vectorVamana").
   { rewrite ?gate_true in H by assumption. destruct (iv_vamana v) as [p|]; [|reflexivity].
-    cbn [oall] in Gv. apply andb_true_iff in Gv. destruct Gv as [Gn Gq].
-    apply vamana_doc; [exact H | apply negb_true_iff; exact Gn | exact Gq]. }
+    apply vamana_doc; exact H. }
   destruct (seq (iv_type v) "text"); [|reflexivity].
   rewrite ?gate_true in H by assumption. destruct (iv_text v) as [a|]; [|reflexivity].
   assert (Ma : mem a doc_analysers = true) by use_sub. rewrite Ma. reflexivity.
 Qed.
 
 Lemma ischema_doc : forall s,
-  forallb (fun kv : string * ivalue => validate_ivalue (snd kv)) s = true ->
-  forallb (fun kv : string * ivalue => nogap_ivalue (snd kv)) s = true -> doc_ischema s = 0%N.
+  forallb (fun kv : string * ivalue => validate_ivalue (snd kv)) s = true -> doc_ischema s = 0%N.
 Proof.
-  induction s as [|[k v] s IH]; intros H G; [reflexivity|].
-  cbn [forallb snd] in H, G. apply andb_true_iff in H, G. destruct H as [H1 H2]. destruct G as [G1 G2].
-  unfold doc_ischema. cbn [fold_right snd]. rewrite (ivalue_doc v H1 G1). cbn. apply IH; assumption.
+  induction s as [|[k v] s IH]; intros H; [reflexivity|].
+  cbn [forallb snd] in H. apply andb_true_iff in H. destruct H as [H1 H2].
+  unfold doc_ischema. cbn [fold_right snd]. rewrite (ivalue_doc v H1). cbn. apply IH; assumption.
 Qed.
 
 Lemma create2_doc : forall r, validate_create2 r = true -> nogap_create2 r = true -> doc_create2 r = 0%N.
 Proof.
   intros r H G. pose proof schema_side_ok as SS. unfold schema_side in SS. split_side SS.
   unfold validate_create2 in H. split_and H. rewrite ?gate_true in * by assumption.
-  unfold nogap_create2 in G. apply andb_true_iff in G. destruct G as [G1 G2].
+  unfold nogap_create2 in G.
   unfold validate_ischema in *. rewrite ?gate_true in * by assumption.
   unfold doc_create2. apply first_code_zero. repeat constructor; cbn [fst]; try use_sub.
-  - rewrite G1. apply orb_true_r.
+  - rewrite G. apply orb_true_r.
   - rewrite ischema_doc by assumption. reflexivity.
 Qed.
 
-(* the three gaps, as accepted requests that violate a documented bound *)
+(* an accepted vector index never carries a product quantizer that the vector store cannot build *)
+Lemma quantizer_fits_buildable : forall p, quantizer_fits p = true -> pq_unbuildable p = false.
+Proof.
+  intros p H. pose proof schema_side_ok as SS. unfold schema_side in SS. split_side SS.
+  unfold quantizer_fits in H. unfold pq_unbuildable. destruct (vp_quant p) as [q|]; [|reflexivity].
+  destruct (seq (qz_type q) "product"); [|reflexivity]. cbn [andb] in *.
+  destruct (seq (vp_metric p) "hamming" || seq (vp_metric p) "jaccard") eqn:E; [reflexivity|]. cbn [negb andb].
+  assert (X : mem (vp_metric p) enf_pq_exempt_metrics = false).
+  { destruct (mem (vp_metric p) enf_pq_exempt_metrics) eqn:M; [|reflexivity].
+    assert (M2 : mem (vp_metric p) ["hamming"; "jaccard"]%string = true) by use_sub.
+    unfold mem in M2. cbn [existsb] in M2. unfold seq in E. rewrite orb_false_r in M2. rewrite M2 in E. discriminate. }
+  rewrite X in H. cbn [negb] in H. peel H D. rewrite ?gate_true in D by assumption.
+  assert (M2 : mem (vp_metric p) ["euclidean"; "cosine"; "dot"]%string = true) by use_sub.
+  unfold mem in M2. cbn [existsb] in M2. rewrite orb_false_r in M2. unfold seq.
+  destruct (qz_product q) as [pq|]; [|reflexivity].
+  rewrite D. rewrite <- orb_assoc. rewrite M2. reflexivity.
+Qed.
 
-Lemma gap_alpha_nan :
-  validate_create2 (mkC2 3 [97; 98; 99]%N true (gap_schema f32_nan None)) = true /\
-  doc_create2 (mkC2 3 [97; 98; 99]%N true (gap_schema f32_nan None)) = 21%N.
-Proof. vm_compute. split; reflexivity. Qed.
+Lemma accepted_index_buildable :
+  (forall p, validate_flat p = true -> pq_unbuildable p = false) /\
+  (forall p, validate_vamana p = true -> pq_unbuildable p = false).
+Proof.
+  pose proof schema_side_ok as SS. unfold schema_side in SS. split_side SS.
+  split; intros p H; [unfold validate_flat in H | unfold validate_vamana in H];
+    peel H F; rewrite ?gate_true in F by assumption; apply quantizer_fits_buildable; exact F.
+Qed.
 
-Lemma gap_bq_trigger :
-  let q := Some (mkQz "binary" (Some (mkBQ true (-5) "hamming")) None) in
-  validate_create2 (mkC2 3 [97; 98; 99]%N true (gap_schema f32_1_2 q)) = true /\
-  doc_create2 (mkC2 3 [97; 98; 99]%N true (gap_schema f32_1_2 q)) = 22%N.
-Proof. vm_compute. split; reflexivity. Qed.
+(* the gaps of the pinned tree, now closed: the witnesses are refused ... *)
+Definition gap_schema_pq : ischema :=
+  [("v"%string, mkIV "vectorFlat" (Some (mkVP 5 "euclidean" 0 0 0%N (Some (mkQz "product" None (Some (mkPQ 4 2 1000)))))) None None false false)].
 
+Lemma former_gaps_rejected :
+  validate_create2 (mkC2 3 [97; 98; 99]%N true (gap_schema f32_nan None)) = false /\
+  validate_create2 (mkC2 3 [97; 98; 99]%N true (gap_schema f32_1_2 (Some (mkQz "binary" (Some (mkBQ true (-5) "hamming")) None)))) = false /\
+  validate_create2 (mkC2 3 [97; 98; 99]%N true gap_schema_pq) = false.
+Proof. vm_compute. repeat split; reflexivity. Qed.
+
+(* ... while the pinned checks accepted them *)
+Lemma former_gaps_v0 :
+  alpha_ok_gen false f32_nan = true /\ f32_in_Q doc_alpha_min doc_alpha_max f32_nan = false /\
+  validate_bq_gen true (mkBQ true (-5) "hamming") = true /\ doc_bq (mkBQ true (-5) "hamming") = 22%N /\
+  pq_unbuildable (mkVP 5 "euclidean" 0 0 0%N (Some (mkQz "product" None (Some (mkPQ 4 2 1000))))) = true /\
+  validate_oquant (Some (mkQz "product" None (Some (mkPQ 4 2 1000)))) = true.
+Proof. vm_compute. repeat split; reflexivity. Qed.
+
+(* the remaining gap: indexSchema is tagged required, a request without it is accepted *)
 Lemma gap_schema_required :
   validate_create2 (mkC2 3 [97; 98; 99]%N false []) = true /\
   doc_create2 (mkC2 3 [97; 98; 99]%N false []) = 23%N.
 Proof. vm_compute. split; reflexivity. Qed.
-
-(* a limit that is neither documented nor enforced: the number of sub-vectors of a product
-   quantizer need not divide the vector size (every later use of the index fails) *)
-Lemma gap_pq_divisibility :
-  let q := Some (mkQz "product" None (Some (mkPQ 4 2 1000))) in
-  let s := [("v"%string, mkIV "vectorFlat" (Some (mkVP 5 "euclidean" 0 0 0%N q)) None None false false)] in
-  enf_pq_subvectors_divide_size = false /\
-  validate_create2 (mkC2 3 [97; 98; 99]%N true s) = true /\ doc_create2 (mkC2 3 [97; 98; 99]%N true s) = 0%N.
-Proof. vm_compute. repeat split; reflexivity. Qed.
 
 (* ---- search requests *)
 Lemma ge1_chain : forall a b x, (1 <=? a) = true -> in_range a b x = true -> (1 <=? x) = true.
@@ -833,8 +854,6 @@ Proof.
   apply andb_true_iff in H. destruct H. apply andb_true_iff. split; auto.
 Qed.
 
-
-Ltac peel H X := apply andb_true_iff in H; destruct H as [H X].
 
 Lemma query_doc : forall q, lens_nonneg q = true -> validate_query q = true -> doc_query q = true.
 Proof.
